@@ -8,7 +8,7 @@ CONSTANTS NV = 4
           MaxId = 2
           MaxSigns = 99
           NWho = 1
-          Rich = FALSE
+          Rich = TRUE
           EmitOn = TRUE
 VIEW View
 CONSTRAINT Bound
